@@ -49,37 +49,6 @@ Variable sp : selpath.
 Variable m : mode.
 Variable sv : sparse.
 
-Fixpoint it_take (k : nat) (it : sv_iter) : res (list (N * N)) :=
-  match k with
-  | O => Ok []
-  | S k' => let* (it', x) := it_next_f m sv it in
-            match x with
-            | None => Ok []
-            | Some p => let* t := it_take k' it' in Ok (p :: t)
-            end
-  end.
-Fixpoint zi_take (k : nat) (z : zero_iter) : res (list (N * N)) :=
-  match k with
-  | O => Ok []
-  | S k' => let* (z', x) := zi_next_f m sv z in
-            match x with
-            | None => Ok []
-            | Some p => let* t := zi_take k' z' in Ok (p :: t)
-            end
-  end.
-Fixpoint it_drive (pat : list bool) (it : sv_iter) : res (list (option (N * N))) :=
-  match pat with
-  | [] => Ok []
-  | b :: t => let* (it', x) := (if b then it_next_back m sv it else it_next_f m sv it) in
-              let* r := it_drive t it' in Ok (x :: r)
-  end.
-Fixpoint sbi_drive (pat : list bool) (s : sbit_iter) : res (list (option bool)) :=
-  match pat with
-  | [] => Ok []
-  | b :: t => let* (s', x) := (if b then sbi_next_back m sv s else sbi_next_f m sv s) in
-              let* r := sbi_drive t s' in Ok (x :: r)
-  end.
-
 Definition model_query (q : query) : bool :=
   match q with
   | QLens len ones zeros => (sv_len sv =? len) && (sv_count_ones sv =? ones) && (sv_count_zeros sv =? zeros)
@@ -88,13 +57,13 @@ Definition model_query (q : query) : bool :=
   | QRank0 i out => res_agree N.eqb (sv_rank_zero sp m sv i) out
   | QSel r out => res_agree onat_eqb (sv_select sp m sv r) out
   | QSel0 r out => res_agree onat_eqb (sv_select_zero sp m sv r) out
-  | QPred v k out => res_agree nnlist_eqb (let* it := sv_predecessor sp m sv v in it_take (N.to_nat k) it) out
-  | QSucc v k out => res_agree nnlist_eqb (let* it := sv_successor sp m sv v in it_take (N.to_nat k) it) out
-  | QSelIter r k out => res_agree nnlist_eqb (let* it := sv_select_iter sp m sv r in it_take (N.to_nat k) it) out
-  | QSel0Iter r k out => res_agree nnlist_eqb (let* z := sv_select_zero_iter sp m sv r in zi_take (N.to_nat k) z) out
-  | QZeroIter k out => res_agree nnlist_eqb (let* z := sv_zero_iter m sv in zi_take (N.to_nat k) z) out
-  | QOneIter pat out => res_agree (list_eqb onn_eqb) (it_drive pat (sv_one_iter sv)) out
-  | QBits pat out => res_agree (list_eqb (opt_eqb Bool.eqb)) (let* s := sv_iter_new m sv in sbi_drive pat s) out
+  | QPred v k out => res_agree nnlist_eqb (let* it := sv_predecessor sp m sv v in it_take m sv (N.to_nat k) it) out
+  | QSucc v k out => res_agree nnlist_eqb (let* it := sv_successor sp m sv v in it_take m sv (N.to_nat k) it) out
+  | QSelIter r k out => res_agree nnlist_eqb (let* it := sv_select_iter sp m sv r in it_take m sv (N.to_nat k) it) out
+  | QSel0Iter r k out => res_agree nnlist_eqb (let* z := sv_select_zero_iter sp m sv r in zi_take m sv (N.to_nat k) z) out
+  | QZeroIter k out => res_agree nnlist_eqb (let* z := sv_zero_iter m sv in zi_take m sv (N.to_nat k) z) out
+  | QOneIter pat out => res_agree (list_eqb onn_eqb) (it_drive m sv pat (sv_one_iter sv)) out
+  | QBits pat out => res_agree (list_eqb (opt_eqb Bool.eqb)) (let* s := sv_iter_new m sv in sbi_drive m sv pat s) out
   | QIsMulti out => res_agree Bool.eqb (sv_is_multiset m sv) out
   end.
 End Q.
